@@ -132,6 +132,7 @@ class TDS(BaseRoutine):
         self.data_csv = None
         self.k_csv = 0    # row number
         self._t_next = None  # exact time to land on when a step is cut at the end time or an event
+        self._t_prev = None  # time before the clock was last advanced; None if not advanced since `init`
 
         # to be computed
         self.deltat = 0
@@ -153,6 +154,7 @@ class TDS(BaseRoutine):
         self._switch_idx = 0          # index into `System.switch_times`
         self._last_switch_t = -999    # the last critical time
         self.custom_event = False
+        self._t_prev = None
         self.mis = [1, 1]
         self.pbar = None
         self.callpert = None
@@ -490,7 +492,11 @@ class TDS(BaseRoutine):
             else:
                 logger.debug("Anticipated time step t=%g did not converge", system.dae.t)
 
-                dae.t -= self.h
+                # go back to the time the rejected step started from. The step attempted
+                # right after `init` is the only one the clock has not been advanced for.
+                clock_ahead = self._t_prev is not None
+                if clock_ahead:
+                    dae.t[...] = self._t_prev
                 self.calc_h()
 
                 logger.debug("From t=%g, new step size h=%g ", system.dae.t, self.h)
@@ -500,7 +506,8 @@ class TDS(BaseRoutine):
                     self.busted = True
                     break
 
-                self._advance_time()
+                if clock_ahead:
+                    self._advance_time()
 
         if self.busted:
             logger.error(self.err_msg)
@@ -671,6 +678,7 @@ class TDS(BaseRoutine):
         the step was cut at (end time, event time, replayed time stamp), if any.
         """
         dae = self.system.dae
+        self._t_prev = dae.t.copy()
         if self._t_next is not None:
             dae.t[...] = self._t_next
         else:
